@@ -73,6 +73,11 @@ var detTemplates = []detTemplate{
 	{name: "acr-numeric-states", args: []string{"acr", "-i", "@rooted.nw", "--states", "@numstates.txt", "--algo", "acctran", "--out-steps", "@X1", "--out-states", "@X2", "--seed", "@SEED", "-o", "@OUT"}},
 	{name: "acr-numeric-states-random", args: []string{"acr", "-i", "@rooted.nw", "--states", "@numstates.txt", "--algo", "downpass", "--random-resolve", "--out-steps", "@X1", "--out-states", "@X2", "--seed", "@SEED", "-o", "@OUT"}},
 	{name: "sample-many", args: []string{"sample", "-i", "@trees.nw", "-n", "3", "--seed", "@SEED", "-o", "@OUT"}},
+	{name: "compare-trees-long-bad", args: []string{"compare", "trees", "-i", "@ref.nw", "-c", "@trees_long_bad.nw", "-t", "@T", "--seed", "@SEED"}, stdout: true, perTree: true, threaded: true},
+	{name: "fbp-long-bad", args: []string{"compute", "support", "fbp", "-i", "@ref.nw", "-b", "@trees_long_bad.nw", "-t", "@T", "-l", "@X1", "--silent", "--seed", "@SEED", "-o", "@OUT"}, threaded: true},
+	{name: "consensus-long-bad", args: []string{"compute", "consensus", "-i", "@trees_long_bad.nw", "-f", "0.5", "--seed", "@SEED", "-o", "@OUT"}},
+	{name: "compare-trees-nexus", args: []string{"compare", "trees", "-i", "@ref.nx", "-c", "@trees.nx", "--format", "nexus", "-t", "@T", "--seed", "@SEED"}, stdout: true, perTree: true, threaded: true},
+	{name: "prune-tipfile-indexed", args: []string{"prune", "-i", "@trees.nw", "-c", "@small.nw", "--seed", "@SEED", "-o", "@OUT"}},
 	{name: "rename-auto", args: []string{"rename", "-i", "@trees.nw", "--auto", "--internal", "--tips", "-l", "6", "--seed", "@SEED", "-o", "@OUT"}},
 	{name: "reformat-nexus-translate", args: []string{"reformat", "nexus", "-i", "@trees.nw", "--translate", "--seed", "@SEED", "-o", "@OUT"}},
 	{name: "edgetrees", args: []string{"compute", "edgetrees", "-i", "@one.nw", "-t", "@T", "--seed", "@SEED", "-o", "@OUTPREFIX"}, threaded: true},
@@ -212,6 +217,15 @@ func genDetFiles(rt *rapid.T) map[string]string {
 	pos := r.Intn(len(bad))
 	bad[pos] = replaceTip(bad[pos], tx[r.Intn(len(tx))], "FOREIGN")
 	files["trees_bad.nw"] = strings.Join(bad, "\n") + "\n"
+	// a collection longer than the 10-record buffer of the reader goroutine, with a malformed tree near its end
+	var long []string
+	for i := 0; i < 16; i++ {
+		long = append(long, trees[i%len(trees)])
+	}
+	lp := 11 + r.Intn(4)
+	long[lp] = strings.Replace(long[lp], ")", "", 1)
+	files["trees_long_bad.nw"] = strings.Join(long, "\n") + "\n"
+	files["ref.nx"] = "#NEXUS\nBEGIN TREES;\nTREE ref = " + strings.TrimSpace(files["ref.nw"]) + "\nEND;\n"
 	files["one.nw"] = withSup(RandomTree(tx, r, 4, true)).Newick() + "\n"
 	files["bin.nw"] = RandomTree(tx, r, 2, true).Newick() + "\n"
 	rooted := RandomTree(tx, r, 3, true)
